@@ -25,7 +25,7 @@ RULE = ("(runner) markets configured with marketPrice, fundamentalPrice or both 
         "1e-9). Non-trivial = >=2 correlated markets with volatility and >=1 change or shock after a chunk boundary. (stats) "
         "20k-50k log-returns per case, in half of the cases measured AFTER a mid-run change of a volatility, drift or correlation (at t = 100..1000): sample mean within 6 vol/sqrt(N) of drift, sample std within 6 vol/sqrt(2N) of vol, "
         "sample correlation within 6(1-rho^2)/sqrt(N) of rho. (probe) the normal source is replaced by cyclic unit vectors so "
-        "the returns expose the mixing matrix A: A A^T must equal vol*corr*vol (rel 1e-9) and the mean must equal the drift.")
+        "the returns expose the mixing matrix A: A A^T must equal vol*corr*vol (rel 1e-9) and the mean must equal the drift; in half of the cases up to four parameter changes are made at time 0 before anything is generated (volatility to 0 and back, drift, set / remove correlation) and the transform must reflect the final settings, a correlation that was configured and never removed included. The machine also registers late starters (add_market(start_at=k): exactly the initial value before k) and removes markets (remove_market: what the remaining markets returned stays).")
 ASSUMPTIONS = ["late-starting markets (add_market(start_at=k), used by no pams caller) are generated only next to at least one registered market that runs from time 0; a Fundamentals holding nothing but late starters cannot be read before their start (np.stack of an empty list) -- outside what the property describes, not judged",
                "remove_market is judged only through its effect on the remaining markets (their returned history must stay and deterministic paths must continue)",
                "a change or shock is applied at a time t <= the largest time generated since the last change (every caller in pams respects this)",
@@ -459,8 +459,35 @@ def probe_cases(draw, tier):
     markets = draw(market_params(n))
     volm = [i for i, m in enumerate(markets) if m["vol"] > 0]
     corr = draw(corr_matrix(len(volm))) if len(volm) >= 2 else None
+    # parameter changes made before anything is generated (time 0): the transform must reflect the FINAL settings, and a
+    # correlation that was configured and never removed stays configured (also across volatility 0 -> v)
+    pre = []
+    for _ in range(draw(st.integers(0, 4)) if draw(st.booleans()) else 0):
+        kind = draw(st.sampled_from(["vol0", "vol", "vol", "drift", "corr", "uncorr"]))
+        i = draw(st.integers(0, n - 1))
+        if kind == "vol0":
+            pre.append(["vol", i, 0.0])
+        elif kind == "vol":
+            pre.append(["vol", i, draw(st.sampled_from([0.01, 0.05, 0.2]))])
+        elif kind == "drift":
+            pre.append(["drift", i, draw(st.sampled_from([0.0, 0.001, -0.002]))])
+        elif kind == "corr":
+            pre.append(["corr", i, draw(st.integers(0, n - 1)), draw(st.sampled_from([-0.8, -0.4, 0.3, 0.7]))])
+        else:
+            pre.append(["uncorr", i, draw(st.integers(0, n - 1))])
     return {"seed": draw(st.integers(0, 2**31 - 1)), "markets": markets, "corr": corr, "start": draw(st.sampled_from([0, 0, 95, 100, 150])),
-            "flip": draw(st.booleans())}
+            "flip": draw(st.booleans()), "pre": pre}
+
+
+def _pd(vols, pairs):
+    ids = [i for i, v in enumerate(vols) if v > 0]
+    if len(ids) < 2:
+        return True
+    M = np.eye(len(ids))
+    for (a, b), c in pairs.items():
+        if a in ids and b in ids:
+            M[ids.index(a), ids.index(b)] = M[ids.index(b), ids.index(a)] = c
+    return np.min(np.linalg.eigvalsh(M)) > 1e-3
 
 
 def probe_check(case):
@@ -470,6 +497,42 @@ def probe_check(case):
     stub = UnitNormal()
     f._np_prng = stub
     n = len(case["markets"])
+    markets = [dict(m) for m in case["markets"]]
+    applied = 0
+    for op in case.get("pre", []):
+        kind, i = op[0], op[1]
+        vols = [m["vol"] for m in markets]
+        if kind == "vol":
+            trial = list(vols)
+            trial[i] = op[2]
+            if not _pd(trial, pairs):
+                continue
+            _call(f.change_volatility, market_id=i, volatility=op[2])
+            markets[i]["vol"] = op[2]
+        elif kind == "drift":
+            _call(f.change_drift, market_id=i, drift=op[2])
+            markets[i]["drift"] = op[2]
+        elif kind == "corr":
+            j = op[2]
+            if i == j or vols[i] == 0 or vols[j] == 0:
+                continue
+            key = (j, i) if (j, i) in pairs else (i, j)
+            trial = dict(pairs)
+            trial[key] = op[3]
+            if not _pd(vols, trial) or not _pd([1.0] * n, trial):
+                continue
+            _call(f.set_correlation, market_id1=i, market_id2=j, corr=op[3])
+            pairs = trial
+        else:
+            j = op[2]
+            key = (j, i) if (j, i) in pairs else (i, j)
+            if i == j or key not in pairs:
+                continue
+            _call(f.remove_correlation, market_id1=i, market_id2=j)
+            pairs = {k_: v for k_, v in pairs.items() if k_ != key}
+        applied += 1
+    case = dict(case, markets=markets)
+    volm = [i for i, m in enumerate(markets) if m["vol"] > 0]
     k = len(volm)
     T = max(k, 1) * 2 + case["start"] + 100
     paths = [_call(f.get_fundamental_prices, market_id=i, times=range(T + 1)) for i in range(n)]
@@ -502,7 +565,7 @@ def probe_check(case):
             cyc = sum(math.log(paths[i][s + 1] / paths[i][s]) for s in range(0, k))
             if not math.isclose(cyc, k * m["drift"] + float(np.sum(A[r])), rel_tol=1e-9, abs_tol=1e-12):
                 raise Violation("C12.drift_is_mean_log_return", f"market {i}")
-    return CaseInfo(nontrivial=k >= 2 and bool(pairs), classes=[f"k{k}"] + (["correlated"] if pairs else []), steps=T,
+    return CaseInfo(nontrivial=k >= 2 and bool(pairs), classes=[f"k{k}"] + (["correlated"] if pairs else []) + (["pre_changes"] if applied else []), steps=T,
                     sample={"markets": case["markets"], "corr": case["corr"], "A": A.tolist()})
 
 
@@ -562,7 +625,7 @@ PARTS = {
     "runner": {"check": runner_check, "strategy": runner_cases, "budget": {"quick": 300, "thorough": 6000}},
     "machine": {"check": machine_check, "strategy": machine_cases, "budget": {"quick": 3000, "thorough": 40000}},
     "stats": {"check": stats_check, "strategy": stats_cases, "budget": {"quick": 96, "thorough": 960}},
-    "probe": {"check": probe_check, "strategy": probe_cases, "budget": {"quick": 400, "thorough": 6000}},
+    "probe": {"check": probe_check, "strategy": probe_cases, "budget": {"quick": 1600, "thorough": 24000}},
 }
 
 
